@@ -4,6 +4,7 @@ package main
 
 import (
 	"fmt"
+	"go/constant"
 	"go/token"
 	"go/types"
 	"sort"
@@ -13,6 +14,7 @@ import (
 )
 
 type Oblig struct {
+	Reach  string
 	Name   string
 	Func   string
 	Kind   string
@@ -22,6 +24,8 @@ type Oblig struct {
 	Pos    string
 	Inputs []string
 	Res    *SolveResult
+	Clause *Clause
+	Callee string
 	ex     *Exec
 }
 
@@ -37,28 +41,30 @@ type loopInfo struct {
 }
 
 type Exec struct {
-	g      *Gen
-	e      *Emitter
-	env    *Env
-	fn     *ssa.Function
-	con    *Contract
-	vals   map[ssa.Value]Val
-	reach  map[*ssa.BasicBlock]string
-	exit   map[*ssa.BasicBlock]*State
-	edge   map[[2]int]string // (pred index, succ index) -> condition
-	entry  *State
-	params map[string]Val
-	obligs []*Oblig
-	loops  map[*ssa.BasicBlock]*loopInfo
-	back   map[[2]int]bool
-	locals map[*ssa.Alloc]string
-	callN  map[string]int
-	safeN  map[string]int
-	unsupported []string
-	curBlock *ssa.BasicBlock
-	st     *State
-	inputs []string
-	deferred []*ssa.Defer
+	replayAssume []string
+	sweep        bool
+	g            *Gen
+	e            *Emitter
+	env          *Env
+	fn           *ssa.Function
+	con          *Contract
+	vals         map[ssa.Value]Val
+	reach        map[*ssa.BasicBlock]string
+	exit         map[*ssa.BasicBlock]*State
+	edge         map[[2]int]string // (pred index, succ index) -> condition
+	entry        *State
+	params       map[string]Val
+	obligs       []*Oblig
+	loops        map[*ssa.BasicBlock]*loopInfo
+	back         map[[2]int]bool
+	locals       map[*ssa.Alloc]string
+	callN        map[string]int
+	safeN        map[string]int
+	unsupported  []string
+	curBlock     *ssa.BasicBlock
+	st           *State
+	inputs       []string
+	deferred     []*ssa.Defer
 }
 
 func (ex *Exec) unsup(format string, a ...interface{}) {
@@ -112,7 +118,7 @@ func (ex *Exec) oblige(kind, label, goal string, p token.Pos) {
 			break
 		}
 	}
-	o := &Oblig{Name: name, Func: ex.fnName(), Kind: kind, Label: label, Cut: len(ex.e.lines), Goal: g, Pos: ex.pos(p), ex: ex, Inputs: ex.inputs}
+	o := &Oblig{Name: name, Func: ex.fnName(), Kind: kind, Label: label, Cut: len(ex.e.lines), Goal: g, Pos: ex.pos(p), ex: ex, Inputs: ex.inputs, Reach: r}
 	ex.obligs = append(ex.obligs, o)
 	ex.e.assume(g)
 }
@@ -147,7 +153,48 @@ func (ex *Exec) paramVal(name string, t types.Type) Val {
 	if s == "Ref" {
 		ex.e.assume(fmt.Sprintf("(or (= %s nil) (select %s %s))", c, ex.entry.get("alloc"), c))
 	}
-	return Val{T: c, S: s}
+	v := Val{T: c, S: s}
+	ex.rely(v, t)
+	return v
+}
+
+// rely: values that already exist satisfy the creation invariant of their type (the induction
+// hypothesis of the global invariant whose other half is the create obligations).
+func (ex *Exec) rely(v Val, t types.Type) {
+	if len(ex.g.createInv) == 0 || v.T == "" || v.Loc != nil {
+		return
+	}
+	if tp, ok := t.(*types.Tuple); ok {
+		for i := 0; i < tp.Len() && i < len(v.Tup); i++ {
+			ex.rely(v.Tup[i], tp.At(i).Type())
+		}
+		return
+	}
+	var arg Val
+	var inv *ssa.Function
+	if f := ex.g.createInv[typeKey(t)]; f != nil {
+		box, _ := ex.e.boxFns(t)
+		arg = Val{T: fmt.Sprintf("(%s %s)", box, v.T), S: "Box"}
+		inv = f
+	} else if isIface(t) {
+		for _, f := range ex.g.createInv {
+			inv = f
+		}
+		arg = v
+	}
+	if inv == nil {
+		return
+	}
+	saved := ex.env.side
+	ex.env.side = nil
+	r := ex.env.evalPure(inv, []Val{arg}, nil, ex.st, ex.entry, 1)
+	side := ex.env.side
+	ex.env.side = saved
+	for _, f := range side {
+		ex.e.assume(f)
+	}
+	ex.env.errs = nil
+	ex.e.assume(r.T)
 }
 
 func (ex *Exec) findLoops() error {
@@ -259,6 +306,15 @@ func (ex *Exec) run() {
 			ex.params[ex.con.Params[i].Name] = v
 		}
 		ex.params[p.Name()] = v
+		if ex.con != nil && ex.con.IfaceOf != nil && i == 0 {
+			// self of the interface contract is the boxed receiver
+			pv := v
+			if pv.Loc != nil {
+				pv = ex.env.materialize(pv)
+			}
+			box, _ := e.boxFns(p.Type())
+			ex.params["self"] = Val{T: fmt.Sprintf("(%s %s)", box, pv.T), S: "Box"}
+		}
 	}
 	for _, fv := range ex.fn.FreeVars {
 		ex.vals[fv] = ex.paramVal("fv_"+fv.Name(), fv.Type())
@@ -283,12 +339,51 @@ func (ex *Exec) run() {
 		}
 	}
 	ex.flushFacts()
+	if ex.con != nil {
+		for _, cl := range ex.con.ReplayAssume {
+			// restriction of the counterexample search to inputs the replay harness can build;
+			// defined here (entry state), asserted only in the model-finding query
+			t := ex.clauseTerm(cl, ex.params, ex.entry, ex.entry, true)
+			ex.replayAssume = append(ex.replayAssume, e.define("replay_assume", "Bool", t))
+		}
+		for _, cl := range ex.con.Observe {
+			if cl.Fn == nil {
+				continue
+			}
+			var av []Val
+			okk := true
+			for _, nm := range cl.Names {
+				v, ok := ex.params[nm]
+				if !ok {
+					okk = false
+				}
+				av = append(av, v)
+			}
+			if !okk {
+				continue
+			}
+			r := ex.env.evalPure(cl.Fn, av, nil, ex.entry, ex.entry, 0)
+			ex.flushFacts()
+			ex.env.errs = nil
+			if r.T != "" && r.Loc == nil {
+				name := "obs_" + cl.ObsName
+				e.line(fmt.Sprintf("(define-fun %s () %s %s)", name, r.S, r.T))
+				ex.inputs = append(ex.inputs, name)
+			}
+		}
+	}
 	if err := ex.findLoops(); err != nil {
 		ex.unsup("%v", err)
 		return
 	}
 	for _, li := range ex.loops {
 		if li.spec == nil || len(li.spec.Invariants) == 0 {
+			if ex.sweep {
+				if li.spec == nil {
+					li.spec = &LoopSpec{N: li.n}
+				}
+				continue
+			}
 			ex.unsup("loop %d (block %d, %s) has no invariant", li.n, li.header.Index, li.header.Comment)
 		}
 	}
@@ -532,12 +627,20 @@ func (ex *Exec) loopHead(li *loopInfo) {
 		t := ex.clauseTerm(cl, entryVars, ex.st, ex.entry, true)
 		ex.oblige(fmt.Sprintf("loop%d-establish", li.n), lbl, t, li.header.Instrs[0].Pos())
 	}
+	entryPhiVals := map[*ssa.Phi]Val{}
+	for _, in := range li.header.Instrs {
+		if phi, ok := in.(*ssa.Phi); ok {
+			entryPhiVals[phi] = ex.vals[phi]
+		} else {
+			break
+		}
+	}
 	// 2. havoc what the loop modifies
 	vars, all := ex.modSet(li.body)
 	if all {
 		ex.st = ex.jsEffect(ex.st)
 		for a, n := range ex.locals {
-			if li.body[a.Block()] || vars[n] {
+			if _, ok := e.hsort[n]; ok && (li.body[a.Block()] || vars[n]) {
 				ex.st.havoc(n)
 			}
 		}
@@ -561,12 +664,80 @@ func (ex *Exec) loopHead(li *loopInfo) {
 		}
 		old := ex.vals[phi]
 		if old.Loc != nil || old.Clo != nil || old.Tup != nil {
-			ex.unsup("loop %d: loop-carried pointer/closure variable %s", li.n, phi.Comment)
+			ex.vals[phi] = ex.env.freshVal("lv_"+sanitize(phi.Comment), phi.Type())
+			ex.flushFacts()
 			continue
 		}
 		c := e.freshConst("lv_"+sanitize(phi.Comment), old.S)
 		e.assume(e.rangeAssume(c, phi.Type()))
+		if old.S == "Ref" {
+			e.assume(fmt.Sprintf("(or (= %s nil) (select %s %s))", c, ex.st.get("alloc"), c))
+		}
 		ex.vals[phi] = Val{T: c, S: old.S}
+	}
+	// 2b. automatic invariants of monotone induction variables: a loop-carried integer whose every
+	// back-edge value is itself plus (minus) a non-negative constant never drops below (rises above)
+	// its initial value. Sound without overflow (64-bit counters; stated assumption).
+	for _, in := range li.header.Instrs {
+		phi, ok := in.(*ssa.Phi)
+		if !ok {
+			break
+		}
+		if !isInt(phi.Type()) {
+			continue
+		}
+		if b, _ := intBits(phi.Type()); b != 64 {
+			continue
+		}
+		dir := 0 // +1 increasing, -1 decreasing
+		okAll := true
+		var inits []string
+		for i, p := range li.header.Preds {
+			ed := phi.Edges[i]
+			if !ex.back[[2]int{p.Index, li.header.Index}] {
+				if iv, ok := entryPhiVals[phi]; ok {
+					inits = append(inits, iv.T)
+				}
+				continue
+			}
+			bo, ok := ed.(*ssa.BinOp)
+			if !ok || bo.X != ssa.Value(phi) {
+				okAll = false
+				break
+			}
+			c, ok := bo.Y.(*ssa.Const)
+			if !ok || c.Value == nil {
+				okAll = false
+				break
+			}
+			cv, exact := constant.Int64Val(constant.ToInt(c.Value))
+			if !exact || cv < 0 {
+				okAll = false
+				break
+			}
+			d := 0
+			switch bo.Op {
+			case token.ADD:
+				d = 1
+			case token.SUB:
+				d = -1
+			default:
+				okAll = false
+			}
+			if dir != 0 && d != dir {
+				okAll = false
+			}
+			dir = d
+		}
+		if !okAll || dir == 0 || len(inits) != 1 {
+			continue
+		}
+		op := ">="
+		if dir < 0 {
+			op = "<="
+		}
+		ex.assumeHere(fmt.Sprintf("(%s %s %s)", op, ex.vals[phi].T, inits[0]))
+		e.note("automatic invariant for monotone loop counters (no 64-bit overflow assumed)")
 	}
 	// 3. assume invariants
 	li.headState = ex.st.clone()
@@ -701,6 +872,9 @@ func (ex *Exec) execInstr(in ssa.Instruction) {
 			e.storeStruct(ex.st, t, addr.T, v.T)
 			return
 		}
+		// a store through an opaque pointer may alias any location of that type
+		e.note("store through an opaque pointer: all heap locations havocked")
+		ex.st = ex.jsEffect(ex.st)
 		h := e.cellHeap(t)
 		ex.st.set(h, fmt.Sprintf("(store %s %s %s)", ex.st.get(h), addr.T, v.T))
 	case *ssa.MapUpdate:
@@ -763,15 +937,33 @@ func (ex *Exec) execInstr(in ssa.Instruction) {
 	case *ssa.Panic:
 		ex.doPanic(in)
 	case *ssa.RunDefers:
+		if ex.sweep {
+			ex.st = ex.jsEffect(ex.st)
+			return
+		}
 		if len(ex.deferred) > 0 {
 			ex.unsup("defer is not supported in this function shape")
 		}
 	case *ssa.Defer:
 		ex.deferred = append(ex.deferred, in)
+		if ex.sweep {
+			return
+		}
 		ex.unsup("defer is not supported yet")
 	case *ssa.Go, *ssa.Send, *ssa.Select:
+		if ex.sweep {
+			ex.st = ex.jsEffect(ex.st)
+			if v, ok := in.(ssa.Value); ok {
+				ex.vals[v] = env.freshVal("sel", v.Type())
+			}
+			return
+		}
 		ex.unsup("goroutines/channels are outside the verified subset")
 	case *ssa.Range, *ssa.Next:
+		if ex.sweep {
+			ex.vals[in.(ssa.Value)] = env.freshVal("rng", in.(ssa.Value).Type())
+			return
+		}
 		ex.unsup("range over string/map is not supported yet")
 	default:
 		v, isVal := in.(ssa.Value)
@@ -790,6 +982,14 @@ func (ex *Exec) execInstr(in ssa.Instruction) {
 		}
 		ex.vals[v] = r
 		ex.postChecks(in, r)
+		if mi, ok := in.(*ssa.MakeInterface); ok {
+			if inv := ex.g.createInv[typeKey(mi.X.Type())]; inv != nil {
+				t := env.evalPure(inv, []Val{r}, nil, ex.st, ex.entry, 1)
+				ex.flushFacts()
+				ex.reportEnvErrs("createinv")
+				ex.oblige("create", typeKey(mi.X.Type())+":"+ex.srcText(mi.X), t.T, in.Pos())
+			}
+		}
 	}
 }
 
@@ -916,6 +1116,16 @@ func (ex *Exec) preChecks(in ssa.Instruction) {
 }
 
 func (ex *Exec) postChecks(in ssa.Instruction, r Val) {
+	switch in := in.(type) {
+	case *ssa.UnOp:
+		if in.Op == token.MUL {
+			ex.rely(r, in.Type())
+		}
+	case *ssa.Lookup:
+		ex.rely(r, in.Type())
+	case *ssa.Field:
+		ex.rely(r, in.Type())
+	}
 	// loaded references are allocated objects (well-formed heap)
 	if u, ok := in.(*ssa.UnOp); ok && u.Op == token.MUL && r.S == "Ref" && r.T != "" {
 		ex.e.assume(fmt.Sprintf("(or (= %s nil) (select %s %s))", r.T, ex.st.get("alloc"), r.T))
@@ -957,6 +1167,7 @@ func (ex *Exec) doReturn(in *ssa.Return) {
 		}
 		t := ex.clauseTerm(cl, m, ex.st, ex.entry, true)
 		ex.oblige("ensures", lbl, t, in.Pos())
+		ex.obligs[len(ex.obligs)-1].Clause = cl
 	}
 	ex.frameCheck(in.Pos())
 }
@@ -977,5 +1188,6 @@ func (ex *Exec) doPanic(in *ssa.Panic) {
 		}
 		t := ex.clauseTerm(cl, m, ex.st, ex.entry, true)
 		ex.oblige("ensures_panic", lbl, t, in.Pos())
+		ex.obligs[len(ex.obligs)-1].Clause = cl
 	}
 }
